@@ -28,7 +28,7 @@ NEEDS = {
  "C10-mls-indent-always-spaces": ("use_tabs=true and a multi-line literal with non-zero indentation: interior lines indented with spaces", "C12/M1c.lf_to_crlf_tabs (shared into C10)", "instance shared into C10 because of this seed"),
  "C04-consume-to-eof-char-count": ("unterminated `{`/`(*` comment or directive with U+3000 among the trailing blanks: token end inside a character => slicing panic", "C13/Z2 (shared into C04)", "Z2 written because of this seed"),
  "C02-lines-custom-crlf-reset": ("same site as C12-lines-custom-crlf-lf, seeded independently for C02", "C12/M1c.crlf_then_empty_lf (shared into C02)", "—"),
- "C12-closing-quote-u3000": ("closing quotes indented with U+3000: literal taken for non-conforming and left alone", "C12/M1c.ideographic_space_base", "instance added (and the reference made U+3000-aware) because of this seed"),
+ "C12-closing-quote-u3000": ("closing quotes indented with U+3000: literal taken for non-conforming and left alone", "C12/M1c.u3000_base", "instance added (and the reference made U+3000-aware) because of this seed"),
  "C06-solution-return-at-ignored": ("`pasfmt off` region in the middle of a statement: `reconstruct_solution` returns at the first ignored token", "C08/S3 (shared into C06)", "S3 got symbolic ignored flags because of this seed"),
  "C17-double-bom": ("input starting with BOM + U+FEFF: second BOM stripped by `decode_with_bom_removal`", "C17/U2", "U2 written (with contract models of the library decoders) because of this seed"),
 }
